@@ -998,12 +998,31 @@ pub fn mutate(env: &Env, class: &'static str, r: &mut Rng, m: &mut usize, rule_i
             }
             if !env.funcs.is_empty() {
                 opts.push(5);
+                opts.push(6);
+                opts.push(6);
             }
             if opts.is_empty() {
                 return None;
             }
             let f = fresh();
             match *r.pick(&opts) {
+                6 => {
+                    // a rule whose action-let reuses a declared table name: rejected for shadowing
+                    // AFTER its body variables were looked at; a later valid rule using the very same
+                    // variable names must still be accepted and fire
+                    let g = env.funcs[r.below(env.funcs.len())].clone();
+                    let shadowed = env.funcs[r.below(env.funcs.len())].name;
+                    let vars: Vec<Name> = g.ins.iter().map(|_| fresh()).collect();
+                    let call = Expr::Call(g.name, vars.iter().map(|v| Expr::Var(*v)).collect());
+                    let x = fresh();
+                    let fact = if g.rel { Fact::Holds(call) } else { Fact::Eq(Expr::Var(x), call) };
+                    let (k, k2) = (rid(), rid());
+                    mk(
+                        "shadow-decl/rule-action-let-vs-table",
+                        Cmd::Rule(k, None, vec![fact.clone()], vec![Action::Let(shadowed, Expr::Int(1))]),
+                        vec![Cmd::Rule(k2, None, vec![fact], vec![]), Cmd::Run(None, 1), Cmd::PrintSize(g.name)],
+                    )
+                }
                 0 => {
                     let s = *r.pick(&env.rulesets);
                     mk(
